@@ -552,11 +552,20 @@ func parent(id, tier string) int {
 
 func fmtMap(m map[string]int64) string {
 	var b bytes.Buffer
-	for i, k := range core.SortedKeys(m) {
-		if i > 0 {
+	n := 0
+	for _, k := range core.SortedKeys(m) {
+		if strings.HasPrefix(k, "layout:") || strings.HasPrefix(k, "cell:") {
+			continue // fine-grained matrices are in the evidence file only
+		}
+		if n >= 60 {
+			fmt.Fprintf(&b, " (+%d more keys in the evidence file)", len(m)-n)
+			break
+		}
+		if n > 0 {
 			b.WriteString(" ")
 		}
 		fmt.Fprintf(&b, "%s=%d", k, m[k])
+		n++
 	}
 	return b.String()
 }
